@@ -115,6 +115,12 @@ Ids.vos Ids.vok Ids.required_vos: Ids.v
 IdsFacts.vo IdsFacts.glob IdsFacts.v.beautified IdsFacts.required_vo: IdsFacts.v Ids.vo
 IdsFacts.vio: IdsFacts.v Ids.vio
 IdsFacts.vos IdsFacts.vok IdsFacts.required_vos: IdsFacts.v Ids.vos
+Cache.vo Cache.glob Cache.v.beautified Cache.required_vo: Cache.v Graph.vo Sched.vo Dataflow.vo Args.vo
+Cache.vio: Cache.v Graph.vio Sched.vio Dataflow.vio Args.vio
+Cache.vos Cache.vok Cache.required_vos: Cache.v Graph.vos Sched.vos Dataflow.vos Args.vos
+CacheFacts.vo CacheFacts.glob CacheFacts.v.beautified CacheFacts.required_vo: CacheFacts.v Graph.vo GraphFacts.vo Sched.vo Dataflow.vo Args.vo ArgsFacts.vo Cache.vo
+CacheFacts.vio: CacheFacts.v Graph.vio GraphFacts.vio Sched.vio Dataflow.vio Args.vio ArgsFacts.vio Cache.vio
+CacheFacts.vos CacheFacts.vok CacheFacts.required_vos: CacheFacts.v Graph.vos GraphFacts.vos Sched.vos Dataflow.vos Args.vos ArgsFacts.vos Cache.vos
 Properties/C01.vo Properties/C01.glob Properties/C01.v.beautified Properties/C01.required_vo: Properties/C01.v Graph.vo Sched.vo SchedInv.vo Dataflow.vo DataflowFacts.vo
 Properties/C01.vio: Properties/C01.v Graph.vio Sched.vio SchedInv.vio Dataflow.vio DataflowFacts.vio
 Properties/C01.vos Properties/C01.vok Properties/C01.required_vos: Properties/C01.v Graph.vos Sched.vos SchedInv.vos Dataflow.vos DataflowFacts.vos
@@ -166,9 +172,9 @@ Properties/C16.vos Properties/C16.vok Properties/C16.required_vos: Properties/C1
 Properties/C17.vo Properties/C17.glob Properties/C17.v.beautified Properties/C17.required_vo: Properties/C17.v Graph.vo Sched.vo SchedInv.vo SchedGhost.vo Dataflow.vo DataflowFacts.vo SameNodes.vo SchedAsync.vo
 Properties/C17.vio: Properties/C17.v Graph.vio Sched.vio SchedInv.vio SchedGhost.vio Dataflow.vio DataflowFacts.vio SameNodes.vio SchedAsync.vio
 Properties/C17.vos Properties/C17.vok Properties/C17.required_vos: Properties/C17.v Graph.vos Sched.vos SchedInv.vos SchedGhost.vos Dataflow.vos DataflowFacts.vos SameNodes.vos SchedAsync.vos
-Properties/C18.vo Properties/C18.glob Properties/C18.v.beautified Properties/C18.required_vo: Properties/C18.v Graph.vo Select.vo SelectFacts.vo History.vo HistoryFacts.vo
-Properties/C18.vio: Properties/C18.v Graph.vio Select.vio SelectFacts.vio History.vio HistoryFacts.vio
-Properties/C18.vos Properties/C18.vok Properties/C18.required_vos: Properties/C18.v Graph.vos Select.vos SelectFacts.vos History.vos HistoryFacts.vos
+Properties/C18.vo Properties/C18.glob Properties/C18.v.beautified Properties/C18.required_vo: Properties/C18.v Graph.vo Select.vo SelectFacts.vo History.vo HistoryFacts.vo Dataflow.vo Args.vo ArgsFacts.vo Cache.vo CacheFacts.vo
+Properties/C18.vio: Properties/C18.v Graph.vio Select.vio SelectFacts.vio History.vio HistoryFacts.vio Dataflow.vio Args.vio ArgsFacts.vio Cache.vio CacheFacts.vio
+Properties/C18.vos Properties/C18.vok Properties/C18.required_vos: Properties/C18.v Graph.vos Select.vos SelectFacts.vos History.vos HistoryFacts.vos Dataflow.vos Args.vos ArgsFacts.vos Cache.vos CacheFacts.vos
 Properties/C19.vo Properties/C19.glob Properties/C19.v.beautified Properties/C19.required_vo: Properties/C19.v Graph.vo Closure.vo Sched.vo SchedInv.vo Dataflow.vo DataflowFacts.vo Terms.vo Iso.vo IsoFacts.vo IsoCheck.vo IsoCheckFacts.vo Compose.vo ComposeFacts.vo
 Properties/C19.vio: Properties/C19.v Graph.vio Closure.vio Sched.vio SchedInv.vio Dataflow.vio DataflowFacts.vio Terms.vio Iso.vio IsoFacts.vio IsoCheck.vio IsoCheckFacts.vio Compose.vio ComposeFacts.vio
 Properties/C19.vos Properties/C19.vok Properties/C19.required_vos: Properties/C19.v Graph.vos Closure.vos Sched.vos SchedInv.vos Dataflow.vos DataflowFacts.vos Terms.vos Iso.vos IsoFacts.vos IsoCheck.vos IsoCheckFacts.vos Compose.vos ComposeFacts.vos
